@@ -287,6 +287,8 @@ def expr_text(e, ctx=None):
         return "attrs['%s']" % e["n"]
     if x == "attrslen":
         return "len(attrs)"
+    if x == "asg":
+        return "(%s := %s)" % (e["n"], expr_text(e["e"]))
     if x == "wrap":
         inner = expr_text(e["e"])
         return {"lambda": "(lambda: %s)()", "lamarg": "(lambda x, len=None: x)(%s)", "listcomp": "[%s for _z in (1,)][0]",
